@@ -20,6 +20,14 @@ CLAIMED = {
         note="Does not decide what lint_fix_parsed does to the tree of an unparsable file when fix_even_unparsable is set, nor Python-level aliasing beyond plain local aliases. " + TRUST,
         design_ref="DESIGN.md §3 C18",
     ),
+    "C19": dict(
+        technique="static analysis: sibling cross-check of the lint drivers by def-use provenance (rule pack vs per-file config), path-sensitive must-precede for the stdin-filename config, dominance of exit-deciding count reads by the discard step",
+        text="Decides three agreements between the path / stdin / API drivers that are necessary for equal violations, fixed text and exit status: "
+        "the rule pack is always built from the per-file config that already holds the inline directives; stdin with --stdin-filename and paths build "
+        "that config with the same constructor and both process inline config; every fix driver reads exit-deciding fixable/unfixable counts after the discard step.",
+        note="Does not decide equality of results for every input; known finding: _stdin_fix reads the unfixable count before the discard step (pinned by the existing test-suite). " + TRUST,
+        design_ref="DESIGN.md §3 C19",
+    ),
     "C25": dict(
         technique="static analysis: path-spelling kind inference (abstract interpretation over discovery.py) + CFG must-guard + def-use",
         text="Decides that no comparison in file discovery mixes an absolutised path with a caller-spelled path (the exact condition "
